@@ -276,6 +276,27 @@ impl C07 {
             Ok(Ok(gds)) => gds,
         };
         cx.count("exported");
+        // one case in six: a clone of the library exports to the same GDSII library (dates aside: they are the time of the export)
+        if cx.n % 6 == 4 && !via_file {
+            let same = |a: &gds21::GdsLibrary, b: &gds21::GdsLibrary| -> bool {
+                a.name == b.name && a.structs.len() == b.structs.len() && a.structs.iter().zip(b.structs.iter()).all(|(x, y)| x.name == y.name && x.elems == y.elems)
+            };
+            match guard(|| g.lib.clone().to_gds()) {
+                Ok(Ok(g2)) if same(&gds, &g2) => cx.count("clone_exports_to_the_same_library"),
+                Ok(Ok(g2)) => {
+                    cx.violation("export-of-a-clone-differs", json!({"structs": gds.structs.iter().map(|s| s.name.clone()).collect::<Vec<_>>(), "structs_of_clone": g2.structs.iter().map(|s| s.name.clone()).collect::<Vec<_>>()}));
+                    return false;
+                }
+                Ok(Err(e)) => {
+                    cx.violation("export-of-a-clone-fails", json!({"error": format!("{:?}", e).chars().take(300).collect::<String>()}));
+                    return false;
+                }
+                Err(c) => {
+                    cx.violation(&format!("export-panic|clone|{}|{}", c.site(), c.norm_msg()), json!({"panic": c.msg}));
+                    return false;
+                }
+            }
+        }
         // boundary observations on the exported GDS: labels inside their shapes, open paths stay open
         for c in g.lib.cells.iter() {
             let c = c.read().unwrap();
